@@ -6,7 +6,11 @@ CONSTANTS
   CS = {1,2}
   LMinAll = 0
   TS = {1,2,3}
-  MUS = {1,2}
+  ChemPool = 4
+  ChemLayout = "rows_are_layers"
+  UnitAt = "return"
+  ULoop = 1
+  EvalEffect = "readonly"
   RADS = {8}
   GMS = {64,128}
   Slicing = "droplast"
@@ -17,6 +21,8 @@ INVARIANT ArrayInputOrientation
 INVARIANT AltitudeStrictlyIncreasing
 INVARIANT GravityFallsOff
 INVARIANT StepRelation
+INVARIANT StepRelationAnyUnit
+INVARIANT MixAlignedWithLayers
 INVARIANT DensityIdealGas
 INVARIANT OneEntryPerLayer
 INVARIANT FitsInv
